@@ -305,8 +305,10 @@ def exec_gen(job):
             continue
         o = cand[(n // 3 + used[pool]) % len(cand)]
         used[pool] += 1
-        zero = (n // 7) % 3 == 1          # every third block of cases uses zero-valued numbers
-        val = {"flag": [], "int": ["0" if zero else "500"], "negint": ["-1"], "float": ["0.0" if zero else "0.25"], "negfloat": ["-0.5"],
+        zero = (n // 7) % 3 == 1          # every third block of cases uses zero-valued numbers,
+        big = (n // 7) % 3 == 2           # another third epoch-sized values with a fraction
+        val = {"flag": [], "int": ["0" if zero else "500"], "negint": ["-1"],
+               "float": ["0.0" if zero else "1403636580.85" if big else "0.25"], "negfloat": ["-1403636579.75" if big else "-0.5"],
                "expfloat": ["0e0" if zero else "1e-3"], "intfloat": ["0" if zero else "2"], "str": ["out_%d.dat" % n],
                "nargs2": ["0", "0.0"] if zero else ["0.5", "10"]}[kind]
         argv.append([o[0]] + val)
